@@ -33,7 +33,9 @@ class WeightEngine:
                 if isinstance(c, ast.Call) and any(isinstance(a, ast.Starred) for a in c.args):
                     for t in inf.targets(c, ("call",)):
                         self.opaque_calls.add(t.qname)
-        for _ in range(3):
+        self.settled = False
+        for it in range(3):
+            self.settled = it > 0            # after the first pass a point parameter without a recorded call site is unknown
             self.callsites = {}
             self.findings, self.sites = [], 0
             for q, fn in self.M.funcs.items():
@@ -60,7 +62,10 @@ class WeightEngine:
 
     @staticmethod
     def is_private(fn):
-        return fn.name.startswith("_") and not (fn.name.startswith("__") and fn.name.endswith("__"))
+        from .known_names import is_new_helper
+        if fn.name.startswith("__") and fn.name.endswith("__"):
+            return False
+        return fn.name.startswith("_") or is_new_helper(fn.name)     # a new helper is called from inside the package only
 
 
 class W:
@@ -76,8 +81,8 @@ class W:
             for k, v in list(s.env.items()):
                 if v[0] == "pt" and (q, k) in eng.param_w:
                     s.env[k] = ("pt", eng.param_w[(q, k)])
-                elif v[0] == "pt" and q in eng.opaque_calls:
-                    s.env[k] = ("pt", None)      # called with *args somewhere: what it receives is not known
+                elif v[0] == "pt" and (q in eng.opaque_calls or eng.settled):
+                    s.env[k] = ("pt", None)      # called with *args somewhere / no call site read: what it receives is not known
     def typ(s, e):
         try: return s.inf.typeof(e)
         except Exception: return P.UNK
@@ -194,7 +199,8 @@ class W:
                         ps = [a.arg for a in t.node.args.posonlyargs + t.node.args.args]
                         if t.kind in ("method", "getter", "setter", "class") and ps: ps = ps[1:]
                         for pn, av in list(zip(ps, args)) + [(k, v) for k, v in kws.items() if k in ps]:
-                            if av[0] == "pt": s.eng.callsites.setdefault((t.qname, pn), []).append(av[1])
+                            # an element of what a curve returned for an unknown argument reads as a coordinate
+                            if av[0] in ("pt", "num") and (len(av) < 3): s.eng.callsites.setdefault((t.qname, pn), []).append(av[1])
             name = f.id if isinstance(f, ast.Name) else f.attr if isinstance(f, ast.Attribute) else None
             if isinstance(f, ast.Name):
                 if name == "abs":
